@@ -48,6 +48,10 @@ CaseU == T("case", <<>>, <<>>, <<>>, TRUE, All)
 CaseL == T("case", <<>>, <<>>, <<>>, FALSE, Exc(<<fC>>))
 SetV == T("setvalue", <<>>, <<>>, <<115,118>>, FALSE, Inc(<<fA, <<102,77>>, <<102,70>>>>))
 SetVId == T("setvalue", <<>>, <<>>, <<115,118>>, FALSE, Inc(<<nosuch>>))
+\* results that are falsy in Python: the empty string
+ReplEmpty == T("replace", <<>>, t_x, <<>>, FALSE, All)
+MapSEmpty == T("mapstr", <<(<<t_x, <<(<<>>)>>>>), (<<t_v, <<(<<>>), t_w>>>>)>>, <<>>, <<>>, FALSE, All)
+SetVEmpty == T("setvalue", <<>>, <<>>, <<>>, FALSE, Inc(<<fA, <<102,77>>, <<102,70>>>>))
 n1 == <<110,49>> n2 == <<110,50>> n3 == <<110,51>> fD == <<102,68>> fY == <<102,89>>
 ToNum == T("convtype", <<>>, <<>>, <<>>, TRUE, Inc(<<n1, n2, n3, <<110,52>>, fY, fD, fA>>))
 ToNumOne == T("convtype", <<>>, <<>>, <<>>, TRUE, Inc(<<n1, n2>>))
@@ -64,6 +68,7 @@ Lists == {<<Fmap1>>, <<Fmap1n>>, <<FmapKw>>, <<FmapRef>>, <<FmapScoped>>, <<Fpre
           <<Fmap1, T("fmap", <<(<<x1, <<x2>>>>)>>, <<>>, <<>>, FALSE, All)>>, <<Fsuf, T("drop", <<>>, <<>>, <<>>, FALSE, Inc(<<fB \o <<46,115>>>>))>>,
           <<Add1, Fpre>>, <<Fmap1n, Repl>>, <<Repl, MapS>>, <<FmapKw, CaseU>>, <<Nest, Add1>>,
           <<Hashes>>, <<HashesDrop>>, <<Hashes, Fsuf>>, <<Hashes, CaseU>>,
+          <<ReplEmpty>>, <<MapSEmpty>>, <<SetVEmpty>>,
           <<ToNum>>, <<ToNumOne>>, <<ToStr>>, <<ToStrScoped>>, <<ToStr, Repl>>, <<ToNumOne, ToStr>>, <<Fmap1, ToStr>>}
 Identities == {<<ConvId>>, <<HashesId>>, <<FmapId>>, <<FpreMapId>>, <<DropId>>, <<ReplId>>, <<MapSId>>, <<SetVId>>,
                <<[T("nest", <<>>, <<>>, <<>>, FALSE, All) EXCEPT !.sub = <<FmapId, ReplId>>]>>}
